@@ -135,7 +135,7 @@ def run_case(i, tier, seed):
         # the product directory is re-delivered: same root, same file names, new content in every file; second open in this process
         pols = list(dict.fromkeys(n.split("-")[1] for n in imgs))
         files2, info2 = gen.rich_product(rng, [seed, i, 1], level=level, n_images=len(pols), scans=scans, max_lines=5, max_pixels=4,
-                                         leader_kw={"n_mp": 1 - n_mp}, newline=newline, image_order=image_order, pols=pols)
+                                         leader_kw={"n_mp": 1 - n_mp}, newline=newline, image_order=image_order, pols=pols, scene=info["names"]["scene"])
         assert sorted(files2) == sorted(files), "replacement product must reuse the file names"
         url = synth.install(files2, root, kind)
         problems = []
